@@ -149,6 +149,26 @@ func c34(sum *lib.Summary) {
 			sum.Fail("engines-differ:ext:"+name, fmt.Sprintf("interpreter and VM disagree on a %s program: interpreter %s; VM %s", name, oi, ov),
 				map[string]any{"template": name, "source": src, "interpreter": oi.String(), "vm": ov.String()})
 		}
+		// peephole off / on on a directly constructed compiler + VM (function expressions run the
+		// optimised code)
+		dp0, err0 := compileDirect(src, false)
+		dp1, err1 := compileDirect(src, true)
+		if err0 != nil || err1 != nil {
+			sum.Count("ext-direct-skipped")
+			continue
+		}
+		o0 := observe(runDirect(dp0))
+		o1 := observe(runDirect(dp1))
+		sum.Evaluations += 2
+		sum.Count("ext-direct-compared")
+		if !o0.same(o1) {
+			sum.Fail("peephole-differs:ext:"+name, fmt.Sprintf("peephole optimisation changes the outcome of a %s program: off %s; on %s", name, o0, o1),
+				map[string]any{"template": name, "source": src, "peephole_off": o0.String(), "peephole_on": o1.String()})
+		}
+		if !o0.same(ov) {
+			sum.Fail("direct-vm-differs:ext:"+name, fmt.Sprintf("VM through the runtime and directly compiled VM disagree on a %s program: runtime %s; direct %s", name, ov, o0),
+				map[string]any{"template": name, "source": src, "runtime_vm": ov.String(), "direct_vm": o0.String()})
+		}
 	}
 
 	// ---------------------------------------------------------------- (b) transactions with storage, two hosts
